@@ -14,11 +14,13 @@ RULE = ("each case: a file (k<=4, N<=6, 1-4 segments) whose N shares are re-plac
         "the next timer (overdue timers) while messages are still pending and 'late' servers answer only after every timer. G+ = distinct share numbers byte-identical "
         "to the upload on servers that answer everything; G- = distinct share numbers present, not certainly unusable, on servers that answer share queries. "
         "Oracle: G+ >= k => success with the exact bytes; G- < k => NotEnoughSharesError/NoSharesError and no data; otherwise either, never other bytes. "
-        "Non-trivial = G+ or G- within 1 of k, or a fault that strikes after the first block request; distinct by the whole case.")
+        "In half of the cases a second phase follows: outstanding answers are delivered, further shares are damaged and the same node is read again; "
+        "there only G+ >= k => success (and never other bytes) is asserted, because the node may serve cached data. "
+        "Non-trivial = G+ or G- within 1 of k, or a fault that strikes after the first block request, or a second read after shares went bad; distinct by the whole case.")
 LEVEL_TEXT = "Fault-plan search with a two-sided availability oracle; exhaustive over share-damage subsets for the smallest encodings."
 ASSUMPTIONS = ["a share whose damage lies in a region the downloader may never consult counts neither as certainly good nor as certainly bad (either outcome accepted)",
                "late servers answer after all timers have fired; the transport is the in-memory scheduler"]
-REQUIRED_CLASSES = ["two-copies", "G+>=k", "G-<k", "between", "fault-late", "fault-disconnect-after", "timer-fired-while-pending", "multi-share-server", "ok", "not-enough", "share>=2KiB"]
+REQUIRED_CLASSES = ["two-copies", "G+>=k", "G-<k", "between", "fault-late", "fault-disconnect-after", "timer-fired-while-pending", "multi-share-server", "ok", "not-enough", "share>=2KiB", "second-read:G+>=k", "second-read-after-used-shares-went-bad"]
 BUDGET = {"quick": 900, "thorough": 7200}
 MAXSTEPS = 6000
 
@@ -57,8 +59,20 @@ def cases(draw):
     if style == "two-copies":
         damage = []
     down = draw(st.lists(st.integers(-2, 12), max_size=draw(st.sampled_from([0, 10, 80]))))
+    # second phase: after the first read, further shares are damaged and the same node is read again
+    second = draw(st.one_of(st.just([]), st.lists(st.tuples(st.integers(0, 8), st.integers(0, 5), st.sampled_from([d for d in immfile.SHARE_DAMAGE if d != "trunc-header"] + ["delete", "flip-all-blocks"]),
+                                                           st.integers(0, 5000)).map(list), min_size=1, max_size=max(1, n - k))))
+    second_used = draw(st.sampled_from([None, None, "delete", "flip-all-blocks", "flip-data-byte"]))
+    if draw(st.integers(0, 5)) == 0 and n > k:
+        # the first read is served by k prompt servers while every other server answers late; then exactly the shares that were used go bad
+        servers = max(servers, n)
+        place = [[i, i] for i in range(n)]
+        prompt = draw(st.lists(st.integers(0, n - 1), min_size=k, max_size=k, unique=True))
+        faults = [[i, "late", 0] for i in range(n) if i not in prompt]
+        damage, second = [], []
+        second_used = second_used or "delete"
     return {"k": k, "n": n, "seg": seg, "size": size, "servers": servers, "place": place, "damage": damage, "faults": faults, "down": down,
-            "guess": draw(st.sampled_from([None, None, None, 16, 200]))}
+            "guess": draw(st.sampled_from([None, None, None, 16, 200])), "second": second, "second_used": second_used}
 
 
 def exhaustive(spec):
@@ -101,9 +115,12 @@ def run_case(case, ctx):
         timers0 = g.sched.timers_fired
         firsts = {}
 
+        read_servers = set()
+
         def ob(m, phase, res):
             if phase == "delivered" and m.meth == "read":
                 firsts.setdefault("read", g.sched.delivered)
+                read_servers.add(m.server.idx)
         g.sched.observers.append(ob)
         before = g.sched.delivered
         r = g.sched.run_until(node.read(c, 0, None), maxsteps=MAXSTEPS)
@@ -132,12 +149,45 @@ def run_case(case, ctx):
             if zone == "G+>=k":
                 ctx.fail("unavailable", "%s: %d intact shares on answering servers but the read never finished (%s after %d messages)" % (desc, sc.gplus, r[0], g.sched.delivered - before), exc=r[0])
             # G- < k with a hang/livelock: termination is C46's statement; here only 'no data' is required (checked above: prefix) -- counted
+        second_classes = []
+        if (case.get("second") or case.get("second_used")) and r[0] in ("ok", "err"):
+            # ---- second phase: answers still in flight arrive (late servers), more shares go bad, the same node is read again.  The node may
+            # serve data it has cached, so only the availability direction is asserted: >= k intact shares on answering servers => success.
+            g.sched.settle()
+            used = sorted(read_servers)
+            hit = immfile.damage_more(sc, case.get("second") or [])
+            if case.get("second_used"):
+                # every share on a server the first read fetched blocks from goes bad
+                for key in sorted(sc.placed):
+                    if key[0] in used and key not in sc.damaged and immfile.apply_damage(sc.placed[key], case["second_used"], 7):
+                        sc.damaged[key] = case["second_used"]
+                        hit.append(key)
+                immfile.ground_truth(sc)
+                second_classes.append("second-read-all-used-shares-bad")
+            c2 = Consumer()
+            before2 = g.sched.delivered
+            r2 = g.sched.run_until(node.read(c2, 0, None), maxsteps=MAXSTEPS)
+            got2 = c2.data()
+            desc2 = desc + " then, after that read (%s) and once every outstanding answer had arrived, shares %r were damaged (%r) and the same node was read again (G+=%d)" % (
+                r[0], hit, [sc.damaged[h_] for h_ in hit], sc.gplus)
+            if got2 != sc.data[:len(got2)]:
+                ctx.fail("wrong-bytes", "%s: consumer received bytes that are not a prefix of the file" % desc2)
+            second_classes.append("second-read")
+            if sc.gplus >= k:
+                second_classes.append("second-read:G+>=k")
+                if hit and r[0] == "ok":
+                    second_classes.append("second-read-after-used-shares-went-bad")
+                if r2[0] != "ok":
+                    ctx.fail("unavailable-second-read", "%s: %d intact shares on answering servers but the second read %s" % (
+                        desc2, sc.gplus, "failed with %s: %s" % (type(r2[1]).__name__, str(r2[1])[:160]) if r2[0] == "err" else "never finished (%s)" % r2[0]), exc=type(r2[1]).__name__ if r2[0] == "err" else r2[0])
+                else:
+                    ctx.check(got2 == sc.data, "short-success", "%s: second read succeeded with %d of %d bytes" % (desc2, len(got2), len(sc.data)))
     finally:
         g.stop()
     per_server = {}
     for (s, sh) in sc.placed:
         per_server[s] = per_server.get(s, 0) + 1
-    classes = [zone, out] + ["fault-" + f for f in set(sc.faulty.values())] + ["damage-" + d for d in set(sc.damaged.values())]
+    classes = second_classes + [zone, out] + ["fault-" + f for f in set(sc.faulty.values())] + ["damage-" + d for d in set(sc.damaged.values())]
     if pending_when_timer:
         classes.append("timer-fired-while-pending")
     if any(v > 1 for v in per_server.values()):
@@ -147,7 +197,7 @@ def run_case(case, ctx):
     if len(sc.placed) == 2 * k and len(set(sh for (s, sh) in sc.placed)) == k:
         classes.append("two-copies")
     late_fault = any(f in ("fail-read-once", "fail-reads-from", "disconnect-after") for f in sc.faulty.values()) and "read" in firsts
-    nt = abs(sc.gplus - k) <= 1 or abs(sc.gminus - k) <= 1 or late_fault
+    nt = abs(sc.gplus - k) <= 1 or abs(sc.gminus - k) <= 1 or late_fault or "second-read-after-used-shares-went-bad" in second_classes
     ctx.note(sig=repr(sorted(case.items())), nontrivial=nt, classes=classes,
              sample={"k": k, "n": case["n"], "seg": case["seg"], "size": case["size"], "placed": sorted(sc.placed), "damaged": sorted(sc.damaged.items()),
                      "faults": sorted(sc.faulty.items()), "schedule": case["down"][:16], "G+": sc.gplus, "G-": sc.gminus, "outcome": out})
